@@ -164,8 +164,8 @@ Proof.
     destruct bw as [x4|] eqn:Ebw end.
   - apply Hnone.
     assert (H4 : pth x4 = pth x3).
-    { destruct (n_router n) as [rt|]; [|discriminate]. destruct (rt_wait rt) as [[[] tmo]|]; try discriminate.
-      dmatch_hyp Ebw; [discriminate|]. inversion Ebw; subst. apply pth_log_event. }
+    { destruct (n_router n) as [rt|]; [|discriminate]. destruct (rt_wait rt) as [[[] tmo]|]; try discriminate; try (dmatch_hyp Ebw; [discriminate|]); inversion Ebw; subst.
+      all: (apply pth_log_event). }
     change (pth (with_session x4 (fun s => upd_run s ri (run_set_status RWaiting))) = pth x3). rewrite pth_upd by reflexivity. exact H4.
   - destruct (pick_node_exit a x3 ri n (length (r_path r0)) false []) as [x5 [e5 op5]| |] eqn:Epk; try discriminate.
     intros H; inversion H; subst.
@@ -654,8 +654,8 @@ Proof.
     destruct bw as [x4|] eqn:Ebw end.
   - intros H _ _; inversion H; subst.
     assert (H4 : pth x4 = pth x3).
-    { destruct (n_router n) as [rt|]; [|discriminate]. destruct (rt_wait rt) as [[[] tmo]|]; try discriminate.
-      dmatch_hyp Ebw; [discriminate|]. inversion Ebw; subst. apply pth_log_event. }
+    { destruct (n_router n) as [rt|]; [|discriminate]. destruct (rt_wait rt) as [[[] tmo]|]; try discriminate; try (dmatch_hyp Ebw; [discriminate|]); inversion Ebw; subst.
+      all: (apply pth_log_event). }
     change (pth (with_session x4 (fun s => upd_run s ri (run_set_status RWaiting))) = update_nth (pth x) ri (fun p => p ++ [{| st_node := n_id n; st_exit := None |}])).
     rewrite pth_upd by reflexivity. congruence.
   - destruct (pick_node_exit a x3 ri n (length (r_path r0)) false []) as [x5 [e5 op5]| |] eqn:Epk; try discriminate.
@@ -866,8 +866,8 @@ Proof.
     destruct bw as [x4|] eqn:Ebw end.
   - intros E; inversion E; subst.
     assert (H4 : fl x4 = fl x3 /\ s_pushed (session_ x4) = s_pushed (session_ x3)).
-    { destruct (n_router n) as [rt|]; [|discriminate]. destruct (rt_wait rt) as [[[] tmo]|]; try discriminate.
-      dmatch_hyp Ebw; [discriminate|]. inversion Ebw; subst. split; [apply fl_log_event|reflexivity]. }
+    { destruct (n_router n) as [rt|]; [|discriminate]. destruct (rt_wait rt) as [[[] tmo]|]; try discriminate; try (dmatch_hyp Ebw; [discriminate|]); inversion Ebw; subst.
+      all: (split; [apply fl_log_event|reflexivity]). }
     destruct H4 as [F4 P4]. eapply flows_known_same; [|simpl; exact P4|exact H3].
     change (fl (with_session x4 (fun s => upd_run s ri (run_set_status RWaiting))) = fl x3). rewrite fl_upd by reflexivity. exact F4.
   - destruct (pick_node_exit a x3 ri n (length (r_path r0)) false []) as [x5 [e5 op5]| |] eqn:Epk; try discriminate.
